@@ -1,7 +1,7 @@
 (* The statements of Properties/C01.v as corollaries of Proofs/C01/Main.stage4_program. *)
 From Coq Require Import ZArith NArith List Bool Arith.
 From GV Require Import Base.Result Base.Host Gen.Instr Model.Num Model.Value Model.Machine
-  Model.CompileExpr Spec.Ast Spec.Printer Spec.Eval
+  Model.CompileExpr Model.CompileWL Spec.Ast Spec.Printer Spec.Eval
   Proofs.C01.MachineFacts Proofs.C01.Fragment Proofs.C01.Stages Proofs.C01.Shape Proofs.C01.Main.
 Import ListNotations.
 
@@ -59,3 +59,26 @@ Lemma stage4_program' : forall sym_hash hstate host, declines_defer hstate host 
   eval_prog sym_hash hstate host n e vin h = ODone v (h', t) ->
   reaches sym_hash hstate host e vin h v h' t.
 Proof. intros. eapply stage4_program; eauto. Qed.
+
+(* the same through the builder model: wherever the AST compiler and the
+   transliterated builder (on the parsed printed tokens) produce the same
+   program, the statement holds for the builder model's program *)
+Definition reaches_built (sym_hash : list N -> N) (hstate : Type) (host : hstate -> host_call -> hstate * option val)
+           (e : expr) (vin : val) (h : hstate) (v : val) (h' : hstate) (t : trace) : Prop :=
+  exists p entry s0 fuel steps sfin,
+    wl_program sym_hash e = Ok (p, entry) /\
+    initial hstate p entry vin h = Some s0 /\
+    run hstate host fuel p s0 = REnd hstate sfin steps /\
+    current_value hstate sfin = Some v /\ hs sfin = h' /\ observable (tr sfin) = t.
+
+Lemma all_programs_built : forall sym_hash hstate host, declines_defer hstate host ->
+  forall e vin h n v h' t,
+  wl_program sym_hash e = Ok (compile_prog sym_hash e, 0) ->
+  printable e = true -> known_K1 e = false -> known_K2 e = false -> labels_ok e = true ->
+  eval_prog sym_hash hstate host n e vin h = ODone v (h', t) ->
+  reaches_built sym_hash hstate host e vin h v h' t.
+Proof.
+  intros sym_hash hstate host Hd e vin h n v h' t Hwl Hp Hk1 Hk2 Hl He.
+  destruct (all_programs sym_hash hstate host Hd e vin h n v h' t Hp Hk1 Hk2 Hl He) as (s0 & fuel & steps & sfin & A & B & C).
+  exists (compile_prog sym_hash e), 0, s0, fuel, steps, sfin. repeat split; auto; apply C.
+Qed.
